@@ -209,6 +209,7 @@ func (node *mastNode) store(
 	cache NodeCache,
 	marshal func(interface{}) ([]byte, error),
 	storeQ chan func() error,
+	commits *[]func(),
 ) (string, error) {
 	if !node.dirty {
 		if debugMutation && node.expected != nil {
@@ -234,8 +235,12 @@ func (node *mastNode) store(
 		}
 	}
 
+	// The node itself stays as it is until every write of this flush has
+	// succeeded: the names of the children go into a copy of the link list.
+	links := make([]interface{}, len(node.Link))
 	linkCount := 0
 	for i, il := range node.Link {
+		links[i] = il
 		if il == nil {
 			continue
 		}
@@ -244,16 +249,17 @@ func (node *mastNode) store(
 		case string:
 			break
 		case *mastNode:
-			newLink, err := l.store(ctx, persist, cache, marshal, storeQ)
+			newLink, err := l.store(ctx, persist, cache, marshal, storeQ, commits)
 			if err != nil {
 				return "", fmt.Errorf("flush: %w", err)
 			}
-			node.Link[i] = newLink
+			links[i] = newLink
 		default:
 			return "", fmt.Errorf("don't know how to flush link of type %T", l)
 		}
 	}
 	trimmed := *node
+	trimmed.Link = links
 	if linkCount == 0 {
 		trimmed.Link = nil
 	}
@@ -264,32 +270,38 @@ func (node *mastNode) store(
 	hashBytes := blake2b.Sum256(encoded)
 	hash := base64.RawURLEncoding.EncodeToString(hashBytes[:])
 	cacheKey := fmt.Sprintf("%s/%s", persist.NodeURLPrefix(), hash)
-	if cache != nil {
-		if cache.Contains(cacheKey) {
-			return hash, nil
-		}
-	}
-	storeQ <- func() error {
-		err = persist.Store(ctx, hash, encoded)
-		if err != nil {
-			return fmt.Errorf("persist store: %w", err)
-		}
-		if cache != nil {
-			cache.Add(cacheKey, node)
-		}
-		return nil
-	}
 	if node.dirty && node.source != nil && *node.source != hash {
 		fmt.Printf("expected node %s %v\n", *node.source, node.expected)
 		fmt.Printf("found    node %s %v\n", hash, node)
 		panic(fmt.Errorf("whoa, somebody modified %v==>%v after loading (keys were %v, became %v)",
 			*node.source, hash, node.expected.Key, node.Key))
 	}
-	node.dirty = false
-	if debugMutation {
-		node.expected = node.xcopy()
+	// commit: run by flush once all writes have completed successfully. Only
+	// then does the node become a clean, shared, persisted node, and only
+	// then is it handed to the cache (and so to other trees).
+	*commits = append(*commits, func() {
+		copy(node.Link, links)
+		node.dirty = false
+		if debugMutation {
+			node.expected = node.xcopy()
+		}
+		node.source = &hash
+		node.shared = true
+		if cache != nil {
+			cache.Add(cacheKey, node)
+		}
+	})
+	if cache != nil {
+		if cache.Contains(cacheKey) {
+			return hash, nil
+		}
 	}
-	node.source = &hash
-	node.shared = true
+	storeQ <- func() error {
+		err := persist.Store(ctx, hash, encoded)
+		if err != nil {
+			return fmt.Errorf("persist store: %w", err)
+		}
+		return nil
+	}
 	return hash, nil
 }
